@@ -233,7 +233,7 @@ def seed_pools():
     """The initial state and six non-initial seed states (each at most 3 cells, so inside every tier's bound). Without
     events that rebind variables the binding topology (which variables share a container) is invariant along a
     history; the seeds supply the topologies: cc = aa / pp = oo (the design's pool), one array behind all three names,
-    every name its own container, pp a separate object, and containers that no variable names (anonymous)."""
+    three separate arrays, pp a separate object, and containers that no variable names (anonymous)."""
     out = []
     aa, bb, oo = [], [], {}
     out.append(('empty: cc = aa, pp = oo', {'aa': aa, 'bb': bb, 'cc': aa, 'oo': oo, 'pp': oo}))
@@ -244,7 +244,8 @@ def seed_pools():
     out.append(('bb shared by aa and oo', {'aa': aa, 'bb': bb, 'cc': aa, 'oo': oo, 'pp': oo}))
     aa, oo = [1.0], {}
     out.append(('aa = bb = cc one array', {'aa': aa, 'bb': aa, 'cc': aa, 'oo': oo, 'pp': oo}))
-    out.append(('every variable its own container', {'aa': [1.0], 'bb': [], 'cc': ['x'], 'oo': {'k1': 'x'}, 'pp': {}}))
+    oo = {'k1': 'x'}
+    out.append(('aa, bb, cc three separate arrays', {'aa': [1.0], 'bb': [], 'cc': ['x'], 'oo': oo, 'pp': oo}))
     aa, oo = [['x']], {'k1': {}}
     out.append(('anonymous nested containers', {'aa': aa, 'bb': [], 'cc': aa, 'oo': oo, 'pp': oo}))
     bb = [None]
